@@ -2,6 +2,7 @@ package harness
 
 import (
 	"math/rand/v2"
+	"time"
 
 	"github.com/vmware/go-ipfix/pkg/entities"
 
@@ -116,6 +117,19 @@ func genC09(seed uint64, tier string) *plan.Plan {
 			}
 			continue
 		}
+		if r.IntN(12) == 0 && nextSlot < 6 {
+			// a new template id whose only announcement fails in the transport, while a second
+			// goroutine of the application hands in a data set for that id: the template was never
+			// transmitted, whatever the two calls' relative timing
+			pl.Cfg["sender2"] = 1
+			tn := []int64{pick(idxSmall), pick(idxSmall)}
+			pl.Ops = append(pl.Ops, plan.Op{K: "wfault", A: 3},
+				plan.Op{K: "send2", S: "for", B: nextSlot, C: int64(r.Uint64() >> 1)},
+				plan.Op{K: "tmpl", A: nextSlot, N: tn},
+				plan.Op{K: "adv", A: int64(time.Millisecond)})
+			nextSlot++
+			continue
+		}
 		if r.IntN(25) == 0 && nextSlot < 6 && len(idxOneByte) > 0 {
 			// a template of 16376..16380 one-byte fields: up to 16377 it fits a message, above it must be
 			// refused - and was then never sent, so data for its id must be refused as well
@@ -167,7 +181,14 @@ func runC09(pl *plan.Plan, out *plan.Outcome) {
 			return
 		}
 		sess = s
+		if cfgOr(pl, "sender2", 0) == 1 {
+			s.startSecondSender()
+		}
 		s.runOps(pl.Ops)
+		if s.send2Ch != nil {
+			close(s.send2Ch)
+			s.env.Sleep(time.Second)
+		}
 		s.closeExporter()
 	})
 	res := env.Run()
@@ -194,6 +215,11 @@ func runC09(pl *plan.Plan, out *plan.Outcome) {
 		return
 	}
 	sess.checkNoInvalid()
+	for _, c2 := range sess.calls2 {
+		if ti := sess.tmpls[c2.Slot]; ti != nil && !ti.Sent && c2.Err == nil {
+			env.Violate("invalid-accepted", "data:template-concurrent", "a data set for template %d, handed in by a second goroutine while the only announcement of that template was failing, was accepted and transmitted; the template was never sent", ti.ID)
+		}
+	}
 	// later sends still produce well-formed messages carrying the handed values
 	sess.checkWire("C09")
 	inv, okAfter := 0, 0
